@@ -80,6 +80,13 @@ type ReadRec struct {
 	Step int
 }
 
+// DroppedRec is a write that was accepted although the peer had closed: its bytes never arrive.
+type DroppedRec struct {
+	Data []byte
+	Step int
+	Time time.Duration
+}
+
 // WriteRec records one Write call.
 type WriteRec struct {
 	Off  int // stream offset before the write
@@ -108,6 +115,8 @@ type Pipe struct {
 
 	Reads  []ReadRec
 	Writes []WriteRec
+	// Dropped: writes accepted after the reader had closed (the kernel takes the first one and answers RST)
+	Dropped []DroppedRec
 	// EndTime is when the writer closed/reset this direction (-1 if open).
 	EndTime time.Duration
 	EndStep int
@@ -441,6 +450,9 @@ func (c *TCPConn) Write(b []byte) (int, error) {
 				// the first write after the peer closed is accepted by the
 				// kernel and dropped by the peer, which answers RST
 				c.recordWrite(len(b), "dropped")
+				p.mu.Lock()
+				p.Dropped = append(p.Dropped, DroppedRec{Data: append([]byte(nil), b...), Step: simrt.Step(), Time: simrt.Elapsed()})
+				p.mu.Unlock()
 				return len(b), nil
 			}
 			c.recordWrite(total, "epipe")
